@@ -325,6 +325,20 @@ def w_builder(task):
             raise NoProgress("round with %d groups for %d leaves" % (len(set(mem)), len(inp)))
         return mem
 
+    import cotengra.core as core
+    seps = []
+    orig_sep = core.separate
+
+    def rec_separate(xs, blocks):
+        xs = list(xs)
+        out = orig_sep(xs, blocks)
+        pos = {id(x): k for k, x in enumerate(xs)} if xs and not isinstance(xs[0], int) else None
+        seps.append({"k": len(xs), "blocks": [int(b) for b in blocks],
+                     "xs": [sorted(x) if not isinstance(x, int) else int(x) for x in xs],
+                     "groups": [[(pos[id(x)] if pos is not None else xs.index(x)) for x in g] for g in out]})
+        return out
+
+    core.separate = rec_separate
     b = PartitionTreeBuilder(rec_fn)
     itf.find_path = rec_find_path
     ContractionTree.contract_nodes = rec_contract_nodes
@@ -342,8 +356,9 @@ def w_builder(task):
     finally:
         itf.find_path = orig
         ContractionTree.contract_nodes = orig_cn
+        core.separate = orig_sep
     return {"tree": _tree_obs(tree), "nested": gen.tree_nested(tree) if tree.N > 1 else 0, "calls": calls,
-            "subs": subs, "tree_path": _plain_path(tree.get_path())}
+            "subs": subs, "seps": seps, "tree_path": _plain_path(tree.get_path())}
 
 
 WORKER_FNS = {"preset": w_preset, "hyper": w_hyper, "trial": w_trial, "space": w_space, "rgreedy": w_rgreedy,
@@ -1062,8 +1077,18 @@ def judge_builder(ctx, J, what, rec, net, o, confirm):
             ctx.count("divide_parts_ge_nodes")
     else:
         ctx.count("agglom_partition_calls", len(o["calls"]))
-    J.model_recs  # (the builder's structural replay is judged by the verified checker above; the
-    # recursive model is exercised with recorded memberships in exhaustive_builders)
+    for sp in o["seps"]:
+        J.model("core.separate", "separate (seq 0 %d) %s" % (sp["k"], coq(list(sp["blocks"]))),
+                coq([list(g) for g in sp["groups"]]), dict(rec, separate=sp))
+    if which == "agglom":
+        # the whole loop, replayed with the recorded partition of each round
+        mt = "[" + "; ".join("(%s, %s)" % (coq([list(x) for x in sp["xs"]]), coq(list(sp["blocks"])))
+                             for sp in o["seps"]) + "]"
+        J.model("build_agglom with the recorded partitions vs the tree built",
+                "build_agglom (sub_of_table %s) (memb_of_table %s) %d %d %d" % (
+                    tbl, mt, rec["opts"]["groupsize"], len(o["seps"]) + 1, n), want,
+                dict(rec, impl_nested=o["nested"], seps=o["seps"], subs=o["subs"]))
+        ctx.count("agglom_replayed")
     for s in o["subs"]:
         J.checker_cases.append(("find_path inside contract_nodes returns a valid pairwise path",
                                 "binary_path_valid %d %s" % (s["k"], path_lit(s["path"])), "true"))
